@@ -457,7 +457,20 @@ func hunt(o Opts) {
 		npts = 12
 	}
 	count := 0
+	// methods whose translated text changed (props/c01.py, go2coq_c01): five times the points there
+	focus := map[string]bool{}
+	for _, m := range strings.Split(os.Getenv("C01_HUNT_FOCUS"), ",") {
+		if m != "" {
+			focus[strings.ToLower(m)] = true
+		}
+	}
+	base := npts
 	for _, sw := range sweeps {
+		npts = base
+		fs := strings.ToLower(strings.TrimSuffix(strings.TrimSuffix(sw.site, "(alias)"), "(concrete)"))
+		if focus[fs] || (fs == "powc" && focus["pow"]) {
+			npts = 5 * base
+		}
 		pars := sw.pars
 		if len(pars) == 0 {
 			pars = []float64{0}
@@ -519,6 +532,7 @@ func hunt(o Opts) {
 		}
 	}
 	// restarted registers: fresh vs reused receiver (streams.go)
+	npts = base
 	sh, sc := staleHunt()
 	hits = append(hits, sh...)
 	count += sc
